@@ -106,6 +106,10 @@ def library_alignment(p):
     return {"cases": cases, "distinct": distinct, "failures": fails[:5]}
 
 
+class RegionMismatch(Exception):
+    pass
+
+
 def writers_region_fn():
     """The `with open(..., 'a')` block of generate_equations' shape loop, extracted from the real source by structure and
     compiled into a function of its free names (nothing is rewritten; dropped: nothing)."""
@@ -121,7 +125,17 @@ def writers_region_fn():
                 if isinstance(b, ast.If) and any(isinstance(w, ast.With) for w in b.body):
                     withs = [w for w in b.body if isinstance(w, ast.With)]
     if not withs:
-        raise RuntimeError("writers region of generate_equations not found")
+        raise RegionMismatch("writers region of generate_equations not found")
+    # the region's free names must be the ones this stand-in knows how to supply
+    stored, loaded = set(), set()
+    for w in withs:
+        for n in ast.walk(w):
+            if isinstance(n, ast.Name):
+                (stored if isinstance(n.ctx, ast.Store) else loaded).add(n.id)
+    import builtins
+    free = {n for n in loaded - stored if n not in vars(g) and not hasattr(builtins, n)}
+    if not free <= {"dirname", "compl", "all_tree", "extra_tree", "param_list", "rank"}:
+        raise RegionMismatch("the writers region reads %s: not the names this stand-in supplies" % sorted(free))
     f = ast.FunctionDef(name="__writers", args=ast.arguments(posonlyargs=[], args=[ast.arg(arg=a) for a in ("dirname", "compl", "all_tree", "extra_tree", "param_list")],
                                                               kwonlyargs=[], kw_defaults=[], defaults=[]), body=withs, decorator_list=[], type_params=[])
     mod = ast.Module(body=[f], type_ignores=[])
@@ -136,7 +150,10 @@ def writers(p):
     every file must get exactly one physical line per tree.  Also validates the A-str facts the deductive contract assumes."""
     import tempfile, shutil
     rng = random.Random(p.get("seed", 0))
-    fn = writers_region_fn()
+    try:
+        fn = writers_region_fn()
+    except RegionMismatch as e:
+        return {"cases": 0, "distinct": 0, "failures": [], "skipped": str(e), "lengths_arrays": [0, 0], "astr_violations": []}
     pool = ["+", "*", "-", "/", "pow", "x", "a0", "a1", "a2", "inv", "exp", "sqrt_abs", "log_abs", "square", "cube", "sin", "tenexp", "log10_abs", "2", "-1", "10"]
     lo, hi = p.get("len_lo", 10), p.get("len_hi", 200)
     bylen_arr, bylen_list = {}, {}
